@@ -222,7 +222,8 @@ func Symbolic() bool { return false }
 // Thorough reports whether the thorough tier was requested.
 func Thorough() bool { load(); return rf.Tier == "thorough" || os.Getenv("VERIF_TIER") == "thorough" }
 
-// ClockSymbolic makes every NowNanos step a free amount in [0,maxStep].
+// ClockSymbolic makes every NowNanos step a free amount in [0,maxStep] (maxStep < 0: fixed
+// 1 ms ticks) and every retry jitter sleep a solver variable.
 func ClockSymbolic(maxStep int64) {}
 
 // Advance moves the harness clock forward by d nanoseconds.
